@@ -201,7 +201,7 @@ def driveTree (t : Option TState) : List String → Option (Option TState × Str
     let t ← t
     let w ← decWhere w
     let v ← decVal v
-    let (s, o) := setVal t.cls t.base t.st w v
+    let (s, o) := setVal t.cls t.base t.st w (t.cid.setValue v)
     pure (some { t with st := s }, encOut encVal o)
   | ["t_reset_chan", n, c] => do
     let t ← t
